@@ -186,7 +186,7 @@ def jobcfg_stream(ctx):
     against a stub of `FWCore.ParameterSet.Config` with file lists of 1-3 entries, with and without a final newline,
     and must ask for all events (`maxEvents.input = -1`) and list exactly the given files, in order.
     (No theorem behind this clause: the configuration's run-time logic is not modelled — DESIGN §8. The ATLAS job
-    options hand `filelist.txt` to ROOT's SampleHandler, which is not executed here.)"""
+    options are executed by `eljob_stream`.)"""
     import os
     import subprocess
     import tempfile
@@ -247,10 +247,117 @@ def jobcfg_stream(ctx):
                                   observed=got, how="render the package, execute analyzer_cfg.py against a stub of FWCore.ParameterSet.Config with this filelist.txt")
 
 
+ELJOB_STUB = r"""
+import sys, types, json
+LOG = {'submitted': None}
+def _readlines(path):
+    # what SH::readFileList does: one input file per line, blank lines and lines starting with '#' skipped, order and repetitions kept
+    out = []
+    for ln in open(path).read().split('\n'):
+        t = ln.strip()
+        if t and not t.startswith('#'):
+            out.append(t)
+    return out
+class SampleLocal:
+    def __init__(self, name): self.name, self.files = name, []
+    def add(self, f): self.files.append(str(f))
+class SampleHandler:
+    def __init__(self): self.samples, self.meta = [], {}
+    def setMetaString(self, k, v): self.meta[k] = v
+    def add(self, s): self.samples.append(s)
+    def printContent(self): pass
+    def __iter__(self): return iter(self.samples)
+def readFileList(sh, name, path):
+    s = SampleLocal(name)
+    for f in _readlines(path): s.add(f)
+    sh.add(s)
+class Job:
+    def __init__(self): self.sh, self.algs, self.outs = None, [], []
+    def sampleHandler(self, sh): self.sh = sh
+    def algsAdd(self, a): self.algs.append(a)
+    def outputAdd(self, o): self.outs.append(o)
+    def options(self): return types.SimpleNamespace(setDouble=lambda *a: None, setString=lambda *a: None)
+class OutputStream:
+    def __init__(self, name): self.name = name
+class DirectDriver:
+    def submit(self, job, d):
+        LOG['submitted'] = {'dir': d, 'samples': [{'name': s.name, 'files': list(s.files)} for s in (job.sh.samples if job.sh else [])],
+                            'algs': [getattr(a, 'n', str(a)) for a in job.algs], 'outputs': [o.name for o in job.outs],
+                            'tree': (job.sh.meta if job.sh else {}).get('nc_tree')}
+class _Ign:
+    def ignore(self): pass
+ROOT = types.ModuleType('ROOT')
+ROOT.xAOD = types.SimpleNamespace(Init=lambda *a: _Ign())
+ROOT.SH = types.SimpleNamespace(SampleHandler=SampleHandler, SampleLocal=SampleLocal, readFileList=readFileList)
+ROOT.EL = types.SimpleNamespace(Job=Job, OutputStream=OutputStream, DirectDriver=DirectDriver)
+sys.modules['ROOT'] = ROOT
+ana = types.ModuleType('AnaAlgorithm'); duc = types.ModuleType('AnaAlgorithm.DualUseConfig')
+class _Alg:
+    def __init__(self, t, n): self.t, self.n = t, n
+duc.createAlgorithm = lambda t, n: _Alg(t, n)
+sys.modules['AnaAlgorithm'] = ana; sys.modules['AnaAlgorithm.DualUseConfig'] = duc
+script = sys.argv[1]; sys.argv = [script] + sys.argv[2:]
+exec(compile(open(script).read(), script, 'exec'), {'__name__': '__main__'})
+print(json.dumps(LOG['submitted']))
+"""
+
+
+def eljob_stream(ctx):
+    """ATLAS counterpart of `jobcfg_stream`: the rendered job options `ATestRun_eljob.py` are executed against a stand-in
+    for PyROOT's SampleHandler / EventLoop (readFileList: one input per line, order and repetitions kept) and must
+    submit ONE job whose sample lists exactly the files of filelist.txt, in order, with multiplicity, reading the
+    CollectionTree, running the `query` algorithm and writing the ANALYSIS stream. (No theorem: run-time logic of a
+    template that is itself a program — DESIGN §8.)"""
+    import os
+    import subprocess
+    import tempfile
+
+    q = {"k": "Select", "s": {"k": "ds"}, "x": "e1", "f": {"k": "Count", "s": {"k": "coll", "e": {"k": "var", "n": "e1"}, "c": "As", "bank": "ba"}}}
+    r = P.translate_functional("atlas", qgen.render_functional(q, qgen.metadata("atlas")))
+    text = (r.get("files") or {}).get("ATestRun_eljob.py") if r.get("ok") else None
+    if not text:
+        ctx.disagreement("job options file not rendered", {"backend": "atlas", "file": "ATestRun_eljob.py"}, "present", "absent")
+        return
+    lists = (["/data/a.root"], ["/data/b.root", "/data/a.root"], ["/data/b.root", "/data/a.root", "/data/c.root"],
+             ["/data/a.root", "/data/a.root"], ["/data/b.root", "/data/a.root", "/data/b.root"])
+    for files in lists:
+        for final_newline in (True, False):
+            d = tempfile.mkdtemp(prefix="vp_eljob_")
+            try:
+                open(os.path.join(d, "ATestRun_eljob.py"), "w").write(text)
+                open(os.path.join(d, "filelist.txt"), "w").write("\n".join(files) + ("\n" if final_newline else ""))
+                open(os.path.join(d, "stub.py"), "w").write(ELJOB_STUB)
+                p = subprocess.run([sys.executable, "stub.py", "ATestRun_eljob.py", "--submission-dir", "bogus"], cwd=d, capture_output=True, text=True, timeout=60)
+            finally:
+                import shutil
+
+                shutil.rmtree(d, ignore_errors=True)
+            key = f"eljob:atlas:{','.join(os.path.basename(f) for f in files)}:{'newline' if final_newline else 'no final newline'}"
+            ctx.count("stream:eljob")
+            ctx.case(key, True, {"backend": "atlas", "files": files})
+            if p.returncode != 0 or not p.stdout.strip():
+                ctx.disagreement("ATLAS job options could not be executed against the PyROOT stand-in", {"backend": "atlas", "files": files}, None, (p.stderr or p.stdout)[-600:])
+                continue
+            got = json.loads(p.stdout.strip().splitlines()[-1])
+            how = "render the package, execute ATestRun_eljob.py against a stand-in for ROOT.SH / ROOT.EL with this filelist.txt, read what the driver was given"
+            case = {"backend": "atlas", "file": "ATestRun_eljob.py", "files": files, "final_newline": final_newline}
+            if got is None:
+                ctx.violation(key=key, what="the ATLAS job options never submit a job", case=case, observed=got, how=how)
+                continue
+            seen = [f for s_ in got["samples"] for f in s_["files"]]
+            if seen != files:
+                ctx.violation(key=key, what="the ATLAS job does not run over exactly the files of filelist.txt (in order, with multiplicity): the rows written are not the rows the query denotes on the listed input",
+                              case=case, observed=got, how=how)
+            elif got.get("dir") != "bogus" or "ANALYSIS" not in got.get("outputs", []) or got.get("tree") != "CollectionTree" or got.get("algs") != ["AnalysisAlg"]:
+                ctx.violation(key=key + ":job", what="the ATLAS job is not submitted to the requested directory with the query algorithm, the CollectionTree input and the ANALYSIS output stream",
+                              case=case, observed=got, how=how)
+
+
 def run(ctx):
     n_tie = 240 if ctx.tier == "quick" else 3000
     _P.known(ctx)
     jobcfg_stream(ctx)
+    eljob_stream(ctx)
     tie_stream(ctx, n_tie)
     lazy_tie_stream(ctx, 150 if ctx.tier == "quick" else 1500)
     # the differential stream (known findings were replayed above)
